@@ -63,7 +63,7 @@ func (p *Paragraph) WriteTo(out io.Writer) error {
 		 * one) ends the last line; it does not start another. Each further
 		 * line is a continuation line, an empty one is written as " .". */
 		lines := strings.Split(strings.TrimSuffix(value, "\n"), "\n")
-		if strings.HasPrefix(lines[0], " ") || strings.HasPrefix(lines[0], "\t") {
+		if strings.TrimLeftFunc(lines[0], unicode.IsSpace) != lines[0] {
 			/* The field's own line is trimmed when read, so a first line
 			 * that starts with white space can only be kept on a
 			 * continuation line. */
